@@ -28,6 +28,11 @@ CHECKS = {
    note="Trusted: Coq kernel/vm_compute incl. primitive floats and 63-bit ints (Print Assumptions lists them); Model/TimeGrid.v, Lib/PyFloat.v; Python harness; exact-rational oracle (fractions) for the search. Float statements are finite-lattice statements, the lattice is in the theorem.",
    technique="Coq proof: induction for list/label logic, exhaustive vm_compute sweep over a stated binary64 lattice; bit-exact differential correspondence",
    design="3/C13"),
+ "C07": dict(
+   text="Theorems (Coq): for any number of operators, any time lists and any value oracle the array built by compute_correlations_nt (rows skipped unless first times ordered, last times masked, values written back under the mask) holds at each index tuple exactly the oracle's value for the steps at those indices if they are non-decreasing and NaN otherwise (aligned, nan_iff_unordered); intervals in both directions incl. those ending at step 0 (interval_spec), lists with negative indices (list_spec), every slice selects valid steps (slice_in_bounds), ints/floats. Tied to /repo exactly: the specification space on small grids through the public API, and values/axes/NaN pattern of 2-4 operator requests and ordered/anti two-time correlations on integer process tensors; searched against an independent dense evaluation.",
+   note="Trusted: Coq kernel/vm_compute + primitive floats; Model/Corr.v, Lib/PySem.v, Model/Control.v, Model/PT.v, Model/SuperOps.v; Python harness. Not covered: bath_dynamics.py (no executable model); empty selections are treated as 'nothing requested'.",
+   technique="Coq proof (lists/Z arithmetic, lia/nia) + exact integer differential correspondence, exhaustive over small specification grids",
+   design="3/C07"),
 }
 
 NOT_YET = {}
